@@ -36,6 +36,7 @@ type hostile2Spec struct {
 	Truncate int    `json:"truncate"`            // cut the stream after this many bytes (-1: no)
 	Noise    int64  `json:"noise"`               // non-zero: overwrite a random slice with random bytes (seeded)
 	ExtraArg string `json:"extra_arg,omitempty"` // daemon roles: an additional argument line
+	NoServer bool   `json:"no_server,omitempty"` // daemon roles: the --server argument line is left out
 }
 
 var hostileData = struct{ a, big, big2 []byte }{
@@ -271,6 +272,15 @@ func runHostile2(sp sessionSpec, res *sessionResult) error {
 			}
 			lines = nl
 		}
+		if h.NoServer {
+			var nl []hfield
+			for _, l := range lines {
+				if l.label != "arg.server" {
+					nl = append(nl, l)
+				}
+			}
+			lines = nl
+		}
 		phase := "text"
 		withDeadline(4*time.Second, func() {
 			br := bufio.NewReader(s2c)
@@ -397,12 +407,12 @@ func runHostile2(sp sessionSpec, res *sessionResult) error {
 // class that the property (and the project) excludes.
 func hugeAllocation(stacks string) bool {
 	for _, g := range strings.Split(stacks, "\n\n") {
-		// the two places that allocate a buffer of a peer-declared 32-bit length:
-		// literal tokens (token.go) and symlink targets (receiver/flist.go)
+		// the three places that allocate for a peer-declared 32-bit size: literal tokens (token.go),
+		// symlink targets (receiver/flist.go) and the checksum list (sender.go receiveSums)
 		lines := strings.Split(g, "\n")
 		for i := 0; i+1 < len(lines); i++ {
 			if strings.HasPrefix(lines[i], "goroutine ") && (strings.Contains(lines[i], "[runnable]") || strings.Contains(lines[i], "[running]")) &&
-				(strings.Contains(lines[i+1], "recvToken") || strings.Contains(lines[i+1], "receiveFileEntry")) {
+				(strings.Contains(lines[i+1], "recvToken") || strings.Contains(lines[i+1], "receiveFileEntry") || strings.Contains(lines[i+1], "receiveSums")) {
 				return true
 			}
 		}
@@ -535,6 +545,10 @@ func runHostileInput(r *run) error {
 	for _, o := range parserOptions() {
 		for _, role := range []string{"daemon-pull", "daemon-push"} {
 			if err := add(hostile2Spec{Role: role, Field: -1, Truncate: -1, ExtraArg: o}, role+": extra argument line "+o, role == "daemon-pull" || r.tier == "thorough"); err != nil {
+				return err
+			}
+			// ... and the same without --server (the daemon then believes it talks to a command line user)
+			if err := add(hostile2Spec{Role: role, Field: -1, Truncate: -1, ExtraArg: o, NoServer: true}, role+": no --server, extra argument line "+o, role == "daemon-push" || r.tier == "thorough"); err != nil {
 				return err
 			}
 		}
